@@ -38,16 +38,25 @@ def check(repo: Repo, rep: Report) -> None:
     root = repo.fn(GBU, "group_by_until_.group_by_until.subscribe")
     on_next = root.child("on_next")
     rep.require(on_next is not None, "group_by_until on_next")
+    # roles: key = the local computed by key_mapper(element); writers = the map looked up with it; writer = that entry
+    keydef = [s for s in sites(on_next) if isinstance(s.node, ast.Assign) and isinstance(s.node.targets[0], ast.Name)
+              and isinstance(s.node.value, ast.Call) and u(s.node.value.func) == "key_mapper" and [u(a_) for a_ in s.node.value.args] == [on_next.params[0]]]
+    rep.require(len(keydef) == 1, "group_by_until: key = key_mapper(x)")
+    key = keydef[0].node.targets[0].id
+    lookup = [s for s in sites(on_next) if isinstance(s.node, ast.Assign) and isinstance(s.node.targets[0], ast.Name) and isinstance(s.node.value, ast.Call)
+              and isinstance(s.node.value.func, ast.Attribute) and s.node.value.func.attr == "get" and isinstance(s.node.value.func.value, ast.Name)
+              and [u(a_) for a_ in s.node.value.args] == [key]]
+    rep.require(len(lookup) == 1, "group_by_until: writer = writers.get(key)")
+    writer = lookup[0].node.targets[0].id
+    writers = lookup[0].node.value.func.value.id
     deliver = [s for s in sites(on_next) if isinstance(s.node, ast.Call) and isinstance(s.node.func, ast.Attribute) and s.node.func.attr == "on_next"
                and dotted(s.node.func.value) not in (root.params[0],)]
-    ok = len(deliver) == 1 and dotted(deliver[0].node.func.value) == "writer" and not [b for b in deliver[0].ctx.branch if b[1] not in ("try",)]
+    ok = len(deliver) == 1 and dotted(deliver[0].node.func.value) == writer and not [b for b in deliver[0].ctx.branch if b[1] not in ("try",)]
     rep.ob("G1-single-delivery", on_next, "one unconditional writer.on_next(element) at the end of on_next", ok,
            "the element is not delivered to exactly one group writer (zero or several deliveries on some path)")
-    lookup = [s for s in sites(on_next) if isinstance(s.node, ast.Assign) and u(s.node.targets[0]) == "writer" and u(s.node.value) == "writers.get(key)"]
-    store = [s for s in sites(on_next) if isinstance(s.node, ast.Assign) and u(s.node.targets[0]) == "writers[key]" and u(s.node.value) == "writer"]
-    keydef = [s for s in sites(on_next) if isinstance(s.node, ast.Assign) and u(s.node.targets[0]) == "key" and u(s.node.value) == f"key_mapper({on_next.params[0]})"]
-    ok = bool(lookup) and bool(store) and bool(keydef) and keydef[0].index < lookup[0].index < store[0].index and \
-        any("writer" in t and t.startswith("not") for t in TC.guards_text(store[0]))
+    store = [s for s in sites(on_next) if isinstance(s.node, ast.Assign) and u(s.node.targets[0]) == f"{writers}[{key}]" and u(s.node.value) == writer]
+    ok = bool(store) and keydef[0].index < lookup[0].index < store[0].index and \
+        any((not p_ and u(e_) == writer) or (p_ and u(e_) == f"{writer} is None") for e_, p_ in store[0].ctx.guards)
     rep.ob("G1-single-delivery", on_next, "writer = writers.get(key_mapper(x)); created and stored when absent", ok,
            "the writer used for an element is not the map entry of its own key (created only when absent)")
     sig = signature(model_of(repo), root)["source#0"]["on_next"]
@@ -56,12 +65,15 @@ def check(repo: Repo, rep: Report) -> None:
            "some path announces several groups or delivers the element several times")
     ex = on_next.child("expire")
     rep.require(ex is not None, "expire")
-    dele = [s for s in sites(ex) if isinstance(s.node, ast.Delete) and u(s.node.targets[0]) == "writers[key]"]
-    comp = [s for s in sites(ex) if isinstance(s.node, ast.Call) and dotted(s.node.func) == "writer.on_completed"]
+    dele = [s for s in sites(ex) if isinstance(s.node, ast.Delete) and u(s.node.targets[0]) == f"{writers}[{key}]"]
+    comp = [s for s in sites(ex) if isinstance(s.node, ast.Call) and dotted(s.node.func) == f"{writer}.on_completed"]
     ok = len(dele) == 1 and len(comp) == 1 and dele[0].ctx.branch == comp[0].ctx.branch
     rep.ob("G2-expiry", ex, "del writers[key]; writer.on_completed()", ok,
            "an expired group is not both removed from the map and completed: its key keeps feeding a dead group, or the group never ends")
-    rem = [s for s in sites(ex) if isinstance(s.node, ast.Call) and dotted(s.node.func) == "group_disposable.remove"]
+    from ..rules import locals_by_init
+    groups = locals_by_init(root, lambda v: isinstance(v, ast.Call) and call_name(v) == "CompositeDisposable")
+    rem = [s for s in sites(ex) if isinstance(s.node, ast.Call) and isinstance(s.node.func, ast.Attribute) and s.node.func.attr == "remove"
+           and dotted(s.node.func.value) in groups]
     rep.ob("G2-expiry", ex, "duration subscription released", bool(rem), "the duration subscription of an expired group is kept")
     sl = signature(model_of(repo), root)["source#0"]
     for slot, pat, kind in (("on_error", r"^e*E$", "error"), ("on_completed", r"^c*C$", "completion")):
